@@ -334,7 +334,7 @@ class TokenizerState:
 
     def add_prog(self, start: int, end: int, **kwargs: Any) -> None:
         self.end_progs.append(
-            EndProg(text=self.line[start:end], contline=self.line, start=(self.lnum, start), **kwargs)
+            EndProg(text=self.line[start:end], start=(self.lnum, start), **kwargs)
         )
 
     def prog_token(self, end: int, tok: Token) -> TokenInfo:
@@ -342,7 +342,8 @@ class TokenizerState:
         endprog.join(self, end)
         self.pos = end
         epos = (self.lnum, end)
-        return TokenInfo(tok, endprog.text, endprog.start, epos, endprog.contline)
+        # contline holds the earlier physical lines of a token that spans lines
+        return TokenInfo(tok, endprog.text, endprog.start, epos, endprog.contline + self.line)
 
     def match(self, pattern: str | re.Pattern[str]) -> re.Match[str] | None:
         pattern = _compile(pattern) if isinstance(pattern, str) else pattern
